@@ -18,6 +18,7 @@ type FItem struct {
 	Counter string
 	Count   string // count expression as written
 	Items   []FItem
+	PreEqu  bool // an EQU line `m equ 2` is written directly before this (top-level) block
 }
 
 var counterNames = []string{"i", "j", "k"}
@@ -63,6 +64,9 @@ func forSource(items []FItem, epilogue string) string {
 				sb.WriteString(op + " " + a + ", " + b + "\n")
 				continue
 			}
+			if it.PreEqu {
+				sb.WriteString("m equ 2\n")
+			}
 			if it.Label != "" {
 				sb.WriteString(it.Label + " ")
 			}
@@ -85,7 +89,7 @@ func forSource(items []FItem, epilogue string) string {
 // flat program, the number of block expansions (passes the expander needs) and
 // ok=false if a labelled block emits nothing (not generated).
 func unroll(items []FItem, epilogue *ref.AIns) (*ref.AProg, int, bool) {
-	p := &ref.AProg{Equs: []ref.AEqu{{Name: "n", Body: []string{"2"}}}}
+	p := &ref.AProg{Equs: []ref.AEqu{{Name: "n", Body: []string{"2"}}, {Name: "m", Body: []string{"2"}}}}
 	p.Ins = append(p.Ins, ref.AIns{Labels: []string{"a"}, Op: "jmp", A: operand("", "1")})
 	expansions := 0
 	ok := true
@@ -120,7 +124,7 @@ func unroll(items []FItem, epilogue *ref.AIns) (*ref.AProg, int, bool) {
 			for i, t := range ct {
 				if v, isC := env[t]; isC {
 					ct[i] = fmt.Sprintf("%d", v)
-				} else if t == "n" {
+				} else if t == "n" || t == "m" {
 					ct[i] = "2"
 				}
 			}
@@ -298,6 +302,14 @@ func (c *Ctx) RunC08(tier string) {
 				c.checkFor(cp, "", nil, "count spelled "+a)
 			}
 			b.Count = old
+			// the count from an EQU that is defined between two blocks
+			if depthOf[bi] == 0 && bi > 0 && (old == "2" || old == "3") {
+				b.PreEqu = true
+				b.Count = map[string]string{"2": "m", "3": "m+1"}[old]
+				c.checkFor(cp, "", nil, "count from an EQU defined between blocks")
+				b.PreEqu = false
+				b.Count = old
+			}
 		}
 	})
 	rep.Bound = fmt.Sprintf("every FOR structure tree with <=%d items (4 instruction templates using the enclosing counters in arithmetic, an EQU and an outside label), nesting depth <=3, counts %v at depth 1 and %v below, <=40 block expansions; each also with one labelled block (label used inside and after it) and with one count spelled as EQU name, EQU+1 or an enclosing counter", budget, counts1, countsN)
